@@ -146,8 +146,8 @@ def tiny_graphs():
             (5, [(0, 1, 1), (1, 2, 1), (0, 2, 1), (3, 4, 7)]), (6, [(0, 1, 1), (1, 2, 2), (0, 2, 2), (3, 4, 1), (4, 5, 1), (3, 5, 1)])]
 
 
-def gen_cases(rng, tier, P):
-    ng = {"quick": 130, "thorough": 700}[tier]
+def gen_cases(rng, tier):
+    ng = {"quick": 260, "thorough": 700}[tier]
     maxn = 12 if tier == "quick" else 22
     graphs = [(g, "tiny") for g in tiny_graphs()]
     for i in range(ng):
@@ -181,8 +181,9 @@ class Judge:
         self.c, self.exe, self.refok, self.d8 = c, exe, refok, d8
         self.nviol = {}
         self.stats = {"signed_exact_fixed": 0, "signed_as_found_exact": 0, "known_d8": 0, "latent_d8": 0, "eord_differ": 0,
-                      "ref_cases": 0, "hangs": 0}
+                      "ref_cases": 0, "ref_distinct": 0, "hangs": 0}
         self.opts = {}
+        self.refcache = {}
         self.lock = threading.Lock()
 
     def report(self, kind, why, rep, found=True):
@@ -252,16 +253,15 @@ class Judge:
             if alg == "signed" and exact:
                 todo_fixed.append(i)
             elif alg == "signed" and why:
-                fx, og = model_lines(key, rf, P)
-                mor = lib.run_model("signedmpi", [og], par=1, group=GROUP)[0]
-                mw = mor.split()[1] if mor.startswith("RET ") else None
-                if differ and P >= 2 and self.d8 is not None and mw is not None and int(mw) != self.opts[key][0]:
+                # several TBB threads: which of several equally light cycles a phase keeps depends on the schedule, so the
+                # one-thread as-found model cannot predict the later phases; D8 is matched by its signature alone here
+                if differ and P >= 2 and self.d8 is not None:
                     with self.lock:
-                        self.stats["known_d8"] += 1
-                        if self.stats["known_d8"] <= 3:
-                            c.known(self.d8, "D8 mcb_sva_signed_mpi P=%d (4 TBB threads) ranks' edge orders differ: %s | graph %s" % (P, why, key))
+                        self.stats["known_d8_tbb"] = self.stats.get("known_d8_tbb", 0) + 1
+                        if self.stats["known_d8_tbb"] <= 1:
+                            c.known(self.d8, "D8 mcb_sva_signed_mpi P=%d (4 TBB threads per rank) ranks' edge orders differ: %s | graph %s" % (P, why, key))
                 else:
-                    self.report("judge", "mcb_sva_signed_mpi with %d ranks: %s" % (P, why), replay_of(i, {"rank_lines": res, "ranks_edge_orders_differ": differ, "model_as_found": mor}))
+                    self.report("judge", "mcb_sva_signed_mpi with %d ranks (4 TBB threads per rank): %s" % (P, why), replay_of(i, {"rank_lines": res, "ranks_edge_orders_differ": differ}))
             elif why:
                 self.report("judge", "%s with %d ranks: %s" % (ENTRY[alg], P, why), replay_of(i, {"rank_lines": res, "ranks_edge_orders_differ": differ}))
             if self.refok and not why and n <= (16 if tier == "quick" else 20) and m <= 40:
@@ -309,8 +309,12 @@ class Judge:
             rl = []
             for i in todo_ref:
                 ret, cycles = O.parse_alg_output(parsed[i][2][0]); rl.append(X.ref_case(parsed[i][1], cycles))
-            ro = lib.run_model("mcbcheck", rl, group="ref", timeout=1500)
-            with self.lock: self.stats["ref_cases"] += len(rl)
+            with self.lock:
+                fresh = sorted({x for x in rl if x not in self.refcache})
+            for x, y in zip(fresh, lib.run_model("mcbcheck", fresh, group="ref", timeout=1500)):
+                with self.lock: self.refcache[x] = y
+            ro = [self.refcache[x] for x in rl]
+            with self.lock: self.stats["ref_cases"] += len(rl); self.stats["ref_distinct"] = len(self.refcache)
             for i, r in zip(todo_ref, ro):
                 f = lib.fields(r, ["SIMPLE", "BASIS", "OPT", "TOTAL", "MIN"])
                 if r.startswith(("MODEL-", "CRASH", "ERR")) or "MIN" not in f:
@@ -362,18 +366,16 @@ def check(tier, seed):
         corpus = [l for l in lib.corpus_cases(PID)]
         c.extra["corpus_cases"] = len(corpus)
         batches = []
+        cases = []
+        for l in corpus:
+            t = l.split(); n, es, _ = lib.parse_graph_tokens(t, 4); cases.append((l, (n, es), "corpus"))
+        cases += gen_cases(c.rng, tier)          # the same cases for every P: the answers must not depend on P either
         for P in Ps:
-            cases = []
-            for l in corpus:
-                t = l.split(); n, es, _ = lib.parse_graph_tokens(t, 4); cases.append((l, (n, es), "corpus"))
-            cases += gen_cases(c.rng, tier, P)
-            nb = 1 if tier == "quick" else 2
-            k = (len(cases) + nb - 1) // nb
-            for b in range(nb):
-                batches.append((P, cases[b * k:(b + 1) * k], "%s_P%d_b%d" % (tier, P, b), 1))
+            batches.append((P, cases, "%s_P%d" % (tier, P), 1))
         if tier == "thorough":      # real TBB with several worker threads inside every rank (tbb variants and the signed variant's local reduce)
+            extra = gen_cases(c.rng, "quick")
             for P in (2, 5):
-                batches.append((P, gen_cases(c.rng, "quick", P), "%s_P%d_tbb4" % (tier, P), 4))
+                batches.append((P, extra, "%s_P%d_tbb4" % (tier, P), 4))
         wd = 300 if tier == "quick" else 1500
         # run the MPI jobs a few at a time (at most ~16 processes), judge as they complete
         sem = threading.Semaphore(16)
